@@ -24,7 +24,7 @@ PROPS = {
     "C11": {
         "level": "other",
         "technique": "deductive verification of junction_tuple/reverse against contracts + reversal-invariance lemma; bounded recount of cuts/breaks/joins on generated remapping runs",
-        "level_text": "Proved: the junction encoding names exactly the two facing contig ends in a canonical order, is invariant under whole-scaffold reversal and injective on unordered end pairs (lemma over the contracts). The equality of the reported counts with an independent recount over whole remapping runs is bounded.",
+        "level_text": "Proved: the junction encoding names exactly the two facing contig ends in a canonical order, is invariant under whole-scaffold reversal and injective on unordered end pairs (lemma over the contracts); a new statistics object starts with cuts, breaks and joins at zero, no input assembly and the prefix it is given (AssemblyStats.__init__). The equality of the reported counts with an independent recount over whole remapping runs is bounded.",
         "level_note": "Trusted: pyvc encoding, SMT solvers. Scaffold.fragment_junction_set / make_stats / cut counting over the pipeline are covered by the bounded tier only.",
         "lemmas": ["c11_junction_reversal_invariant"],
         "bounded": [("bounded.c11", {})],
